@@ -196,6 +196,28 @@ func execCert(env Env, t *world.TaskSpec, out *Outcome) {
 		t = &tt
 		cfg = fmt.Sprintf("%s n=%d clauses=%v cert(trace)=%q", t.Entry, t.N, t.Clauses, strings.Join(t.Lines, " | "))
 	}
+	// one line stretched with blanks (blanks separate fields whatever their number): across the scanner's
+	// buffer sizes, or beyond the longest line a bufio.Scanner takes (an error is then tolerated, a
+	// wrong "valid" is not)
+	tolerate := false
+	if len(t.Pad) == 2 && len(t.Lines) > 0 {
+		tt := *t
+		tt.Lines = append([]string(nil), t.Lines...)
+		i := t.Pad[0] % len(tt.Lines)
+		if f := strings.Fields(tt.Lines[i]); len(f) > 0 && len(tt.Lines[i]) < t.Pad[1] {
+			blanks := strings.Repeat(" ", t.Pad[1]-len(tt.Lines[i]))
+			tt.Lines[i] = f[0] + blanks + strings.TrimPrefix(strings.TrimLeft(tt.Lines[i], " \t"), f[0])
+			out.fault("long-certificate-line", 1)
+			if t.Pad[1] >= 60000 && t.Entry == "unsat-reader" {
+				tolerate = true
+				out.fault("certificate-line-beyond-scanner-limit", 1)
+			}
+		}
+		t = &tt
+	}
+	if len(t.Pad) == 2 || t.FailAt != 0 {
+		cfg += fmt.Sprintf(" pad=%v fail_at=%d", t.Pad, t.FailAt)
+	}
 	// reference reading of the certificate: which lines are clause lines, is every one RUP in order,
 	// is every one entailed, where is the first empty clause
 	rup := ref.NewRUP(t.N, t.Clauses)
@@ -236,6 +258,12 @@ func execCert(env Env, t *world.TaskSpec, out *Outcome) {
 				text += "\n"
 			}
 			rd := NewSimReader(text, t.Chunks, t.EOFWith)
+			if t.FailAt != 0 && t.FailAt < len(text) {
+				// the stream fails before the end of the certificate: an error is the expected answer,
+				// "valid" is wrong whenever a line of the certificate is not a consequence
+				rd.FailAt = t.FailAt
+				tolerate = true
+			}
 			v, e := pb.Unsat(rd)
 			out.readerFaults(rd)
 			return v, e
@@ -285,14 +313,17 @@ func execCert(env Env, t *world.TaskSpec, out *Outcome) {
 	}
 	valid, err := call()
 	out.Summary = fmt.Sprintf("cert:%v", valid)
-	if err != nil {
+	if err != nil && !tolerate {
 		out.fail("C08", "cert-error", "[%s] the checker returned an error on a syntactically valid certificate: %v", cfg, err)
 		return
+	}
+	if err != nil {
+		out.probe("cert-error-under-fault")
 	}
 	if valid && !allEntailed {
 		out.fail("C08", "accepted-non-consequence", "[%s] certificate reported valid but line %q is not a logical consequence of the problem", cfg, firstNotEntailed)
 	}
-	if !valid && allRUP && mustAccept {
+	if !valid && allRUP && mustAccept && !tolerate {
 		out.fail("C08", "rejected-rup", "[%s] every line is derivable by unit propagation but the certificate was rejected", cfg)
 	}
 	if allRUP {
